@@ -47,7 +47,9 @@ func c10Symbols() []c10Sym {
 		{"jfif", func(*mc.Exec) gen.Seg { return gen.SegJFIF() }},
 		{"exif-min-II", func(*mc.Exec) gen.Seg { return gen.SegExif(minII) }},
 		{"exif-rich-MM", func(*mc.Exec) gen.Seg { return gen.SegExif(richMM) }},
-		{"xmp", func(x *mc.Exec) gen.Seg { return gen.SegXMP(c10Packet(c10XmpLens[x.All("xmp-length", len(c10XmpLens))])) }},
+		{"xmp", func(x *mc.Exec) gen.Seg {
+			return gen.SegXMP(c10Packet(c10XmpLens[x.All("xmp-length", len(c10XmpLens))]))
+		}},
 		{"jfxx", func(*mc.Exec) gen.Seg { return gen.SegJFXX() }},
 		{"xmp-ext", func(*mc.Exec) gen.Seg { return gen.SegXMPExt() }},
 		{"icc", func(*mc.Exec) gen.Seg { return gen.SegICC() }},
